@@ -41,6 +41,7 @@ type Report struct {
 	Exhaustive  bool
 	Analysed    map[string]int    // counters: packages, functions, call sites ...
 	start       time.Time
+	selfTestResults []selfTestResult
 }
 
 func newReport(prop, tier string) *Report {
@@ -260,6 +261,11 @@ func (r *Report) finish(verifDir string, seed int64) int {
 	}
 	for k, v := range r.Extra {
 		cov[k] = v
+	}
+	if r.selfTestResults != nil {
+		d, m, sk := printSelfTest(r.selfTestResults)
+		cov["selftest"] = map[string]any{"seeded_changes": len(r.selfTestResults), "detected": d, "missed": m, "skipped": sk, "results": r.selfTestResults,
+			"note": "each seeded change (see /verif/seeded/<id>/meta.json) applied to a scratch copy of /repo; this checker must report it"}
 	}
 	ev := map[string]any{
 		"property_id": r.Prop,
